@@ -142,9 +142,7 @@ def run(ctx):
            sorted(tags_default) == ['ATOM  ', 'HETATM'],
            'atom records are ATOM and HETATM (default %s)' % (tags_default,), rl.mod, rl.fn)
     # statements outside the atom block touch only MODEL/TER bookkeeping
-    for stmt in rl.loop.body:
-        if stmt is rl.atom_block:
-            continue
+    for stmt in rl.outside:
         if isinstance(stmt, ast.If):
             t = norm(stmt.test)
             ok = isinstance(stmt.test, ast.Compare) and any(
